@@ -196,7 +196,14 @@ func (w *World) netConfig() simnet.Config {
 		for _, i := range pt.A {
 			a[w.Insts[i].Name] = true
 		}
-		c.Parts = append(c.Parts, simnet.Partition{From: pt.From, To: pt.To, A: a, OneWay: pt.OneWay})
+		var bm map[string]bool
+		if len(pt.B) > 0 {
+			bm = map[string]bool{}
+			for _, i := range pt.B {
+				bm[w.Insts[i].Name] = true
+			}
+		}
+		c.Parts = append(c.Parts, simnet.Partition{From: pt.From, To: pt.To, A: a, B: bm, OneWay: pt.OneWay})
 	}
 	return c
 }
